@@ -17,6 +17,11 @@ bool -> int is `if b then 1 else 0`.
 
 Anything outside the accepted subset makes the translator refuse the kernel (exception with the
 offending node kind) — never guess.
+
+Opt-in extensions (configuration keys, see translate/README.md): tu_file, template_args, clang_constants, record kinds
+"ctor" / "array", call kinds "getter:" / "getter_copy:", auto_callees (C12); structs, method_of, ctor_of,
+inline_carried_members (C11: plain records carried field by field, constructors from their definitions, inlined callees,
+tracked effects of non-const member functions).
 """
 import json
 import os
@@ -375,6 +380,14 @@ def rec_key(t):
     return t if t in Tr.structs else None
 
 
+def carried_key(t):
+    return strip_cv(t).split("<")[0].split("::")[-1]
+
+
+def is_const_method(fn):
+    return bool(re.search(r"\) const( noexcept)?( ->.*)?$", fn.get("type", {}).get("qualType", "")))
+
+
 def sv_names(rec, prefix):
     """an SV of fresh parameter names for a record: <prefix>_<field without leading underscore>, a one-field record of
     a scalar is the prefix itself"""
@@ -428,6 +441,8 @@ class Tr:
         self.members = members
         self.this_val = None  # SV of the object a member function / constructor body works on (key "structs")
         self.this_rec = None
+        self.this_carried = None   # (member name, value): *this of an inlined member function of a carried record
+        self.may_mutate = False    # inside a member function / constructor body whose effects on *this are tracked
 
     def fresh(self, base="t"):
         self.n += 1
@@ -598,6 +613,7 @@ class Tr:
         sub = Tr(self.records, self.calls, self.members)
         sub.binds = self.binds          # straight-line code is spliced into the caller's bindings
         sub.n = self.n
+        sub.may_mutate = True           # (branches get fresh translators, where effects on objects are refused)
         return sub
 
     def expr_struct(self, n, k, inner):
@@ -610,6 +626,42 @@ class Tr:
             return self.this_val
         if k == "UnaryOperator" and n.get("opcode") == "*" and inner[0].get("kind") == "CXXThisExpr":
             return self.expr(inner[0])
+        if k == "UnaryOperator" and n.get("opcode") in ("++", "--") and self.member_slot(inner[0]) is not None:
+            # ++m / m++ on an integer member of *this: narrower than int = computed in int and converted back (modular)
+            i = self.member_slot(inner[0])
+            old = self.this_val[i]
+            name, bits, sg = ity_of(inner[0])
+            op = "+" if n["opcode"] == "++" else "-"
+            if bits < 32 or not sg:
+                new = f"(wrap_ty {name} ({old} {op} 1))"
+            else:
+                new = self.fresh()
+                self.binds.append(("do", new, f"chk {name} ({old} {op} 1)"))
+            self.set_member(i, new)
+            return old if n.get("isPostfix") else new
+        if k == "CompoundAssignOperator" and self.member_slot(inner[0]) is not None:
+            # m op= e on an integer member of *this: computed in the types clang names, converted back to the member's
+            lhs, rhs = inner
+            i = self.member_slot(lhs)
+            lv = {"kind": "ImplicitCastExpr", "castKind": "LValueToRValue", "type": lhs["type"], "inner": [lhs]}
+            lc = {"kind": "ImplicitCastExpr", "castKind": "IntegralCast", "type": n.get("computeLHSType", lhs["type"]), "inner": [lv]}
+            fake = {"kind": "BinaryOperator", "opcode": n["opcode"][:-1], "type": n.get("computeResultType", n["type"]), "inner": [lc, rhs]}
+            new = self.cast(fake, {"kind": "CompoundAssignOperator", "type": lhs["type"]})
+            self.set_member(i, new)
+            return new
+        if k == "MemberExpr" and inner and inner[0].get("kind") == "CXXThisExpr" and self.this_carried is not None:
+            if n.get("name") != self.this_carried[0]:
+                raise Refuse(f"member {n.get('name')} of a carried record")
+            return self.this_carried[1]
+        if k == "InitListExpr" and self.records.get(carried_key(qt(n)), {}).get("kind") == "array":
+            # aggregate initialisation of etl::array<T, N> with all N scalar elements written out
+            if len(inner) != 1 or inner[0].get("kind") != "InitListExpr" or "array_filler" in inner[0]:
+                raise Refuse("array initialiser that does not list every element")
+            elems = [self.expr(x) for x in inner[0].get("inner", [])]
+            m = re.search(r"array<[^,]*, *([0-9]+)", record_canon(qt(n)))
+            if any(not isinstance(e, str) for e in elems) or not m or int(m.group(1)) != len(elems):
+                raise Refuse("array initialiser: element count")
+            return ("array", elems)
         if k == "MemberExpr" and inner and not qt(n).startswith("<bound member"):
             base = inner[0]
             rec = rec_key(qt(base).rstrip("*").strip()) if base.get("kind") == "CXXThisExpr" else rec_key(qt(base))
@@ -625,6 +677,11 @@ class Tr:
             if rec is None:
                 return NotImplemented
             return self.construct_struct(n, rec, inner)
+        if k == "InitListExpr" and len(inner) == 1 and rec_key(qt(n)) is not None and rec_key(qt(inner[0])) == rec_key(qt(n)):
+            v = self.expr(inner[0])             # T{e} with e a prvalue of the same struct: the (elided) copy
+            if not isinstance(v, SV):
+                raise Refuse(f"initializer list of struct {rec_key(qt(n))}")
+            return v
         if k == "InitListExpr" and len(inner) == 1 and rec_key(qt(n)) is None and ity_ok(n) and ity_ok(inner[0]) \
                 and ity_of(n) == ity_of(inner[0]):
             return self.expr(inner[0])          # int{e} with e of that very type (conversions are explicit cast nodes)
@@ -633,6 +690,8 @@ class Tr:
             while a.get("kind") in ("ImplicitCastExpr", "ParenExpr"):
                 a = a["inner"][0]
             arr = self.env.get(a.get("referencedDecl", {}).get("id")) if a.get("kind") == "DeclRefExpr" else None
+            if arr is None and a.get("kind") == "MemberExpr" and self.this_carried is not None:
+                arr = self.expr(a)
             if not (isinstance(arr, tuple) and arr[0] == "array"):
                 raise Refuse("subscript of something that is not a local constant array")
             idx = self.expr(inner[1])
@@ -653,22 +712,34 @@ class Tr:
             else:
                 return NotImplemented
             fn = Tr.forest.def_by_decl.get(fid) if Tr.forest is not None else None
+            if fn is None and Tr.forest is not None and Tr.cfg.get("inline_carried_members"):
+                # a member function of a class template specialisation: only for carried records (checked below)
+                fn = Tr.forest.func_by_id.get(fid)
+                if fn is not None and not (fn.get("kind") in ("CXXMethodDecl", "CXXConversionDecl") and fn.get("storageClass") != "static"
+                                           and fid in Tr.forest.owner):
+                    fn = None
             if fn is None:
                 return NotImplemented
             is_member = fn.get("kind") in ("CXXMethodDecl", "CXXConversionDecl") and fn.get("storageClass") != "static"
             if is_member and obj is None:
                 obj, args = args[0], args[1:]       # member operator called with operator syntax
             if is_member and rec_key(qt(obj).rstrip("*").strip()) is None:
+                spec = self.records.get(carried_key(qt(obj)), {})
+                if Tr.cfg.get("inline_carried_members") and spec.get("kind") in ("ctor", "array"):
+                    # a const member function of a carried record (duration::operator-, array::operator[]): inlined
+                    # with `this->member` bound to the carried value
+                    return self.call_struct(fn, obj, args, n, carried=spec["member"])
                 return NotImplemented           # a member of a record that is not a configured struct (duration ...)
+            if is_member and not is_const_method(fn):
+                return self.call_mut(fn, obj, args, n)
             return self.call_struct(fn, obj if is_member else None, args, n)
         return NotImplemented
 
-    def call_struct(self, fn, obj, args, n):
+    def call_struct(self, fn, obj, args, n, carried=None):
         name = fn.get("name")
         if fn.get("id") in Tr.in_progress:
             raise Refuse(f"recursive call of {name}")
-        ftype = fn.get("type", {}).get("qualType", "")
-        if obj is not None and not re.search(r"\) const( noexcept)?( ->.*)?$", ftype):
+        if obj is not None and not is_const_method(fn):
             raise Refuse(f"call to non-const member function {name}")
         this_val = self.expr(obj) if obj is not None else None
         ps = [p for p in fn.get("inner", []) if p.get("kind") == "ParmVarDecl"]
@@ -687,6 +758,8 @@ class Tr:
         sub = self.sub_tr()
         sub.this_val = this_val
         sub.this_rec = Tr.forest.rec_owner.get(fn.get("id"))
+        if carried is not None:
+            sub.this_val, sub.this_rec, sub.this_carried = None, None, (carried, this_val)
         for p, v in zip(ps, vals):
             sub.env[p["id"]] = v
         Tr.in_progress.add(fn.get("id"))
@@ -710,6 +783,71 @@ class Tr:
         t = self.fresh()
         self.binds.append(("do", t, "(" + r + ")"))
         return self.take_apart(t, ret_rec, name)
+
+    def member_slot(self, e):
+        """index of the integer member of *this that `e` names (only where effects on *this are tracked), else None"""
+        while e.get("kind") == "ParenExpr":
+            e = e["inner"][0]
+        if not (e.get("kind") == "MemberExpr" and e.get("inner") and e["inner"][0].get("kind") == "CXXThisExpr"
+                and self.this_val is not None and self.this_rec is not None):
+            return None
+        if not self.may_mutate:
+            raise Refuse("effect on *this inside a branch")
+        names = [f for f, _ in struct_fields(self.this_rec)]
+        if e.get("name") not in names or isinstance(self.this_val[names.index(e["name"])], SV):
+            raise Refuse(f"effect on member {e.get('name')}")
+        return names.index(e["name"])
+
+    def set_member(self, i, v):
+        new = SV(self.this_val)
+        new[i] = v
+        self.this_val = new
+
+    def call_mut(self, fn, obj, args, n):
+        """call of a NON-const member function: the object must be *this or a local variable holding a configured
+        struct; the callee's straight-line body runs on its current value and the value it leaves is written back"""
+        name = fn.get("name")
+        if not self.may_mutate:
+            raise Refuse(f"call to non-const member function {name} inside a branch")
+        if fn.get("id") in Tr.in_progress:
+            raise Refuse(f"recursive call of {name}")
+        o = obj
+        while o.get("kind") == "ParenExpr":
+            o = o["inner"][0]
+        if (o.get("kind") == "UnaryOperator" and o.get("opcode") == "*" and o["inner"][0].get("kind") == "CXXThisExpr") \
+                or o.get("kind") == "CXXThisExpr":
+            slot, cur = None, self.this_val
+        elif o.get("kind") == "DeclRefExpr" and o["referencedDecl"].get("kind") == "VarDecl" \
+                and isinstance(self.env.get(o["referencedDecl"]["id"]), SV) and "const" not in qt(o):
+            slot, cur = o["referencedDecl"]["id"], self.env[o["referencedDecl"]["id"]]
+        else:
+            raise Refuse(f"call to non-const member function {name} on something that is neither *this nor a local variable")
+        if cur is None:
+            raise Refuse(f"call to non-const member function {name} without an object")
+        ps = [p for p in fn.get("inner", []) if p.get("kind") == "ParmVarDecl"]
+        if len(ps) != len(args):
+            raise Refuse(f"call to {name}: {len(args)} arguments for {len(ps)} parameters")
+        vals = [self.expr(a) for a in args]
+        body = [x for x in fn["inner"] if x.get("kind") == "CompoundStmt"][0].get("inner", [])
+        if not body or body[-1].get("kind") != "ReturnStmt" or not body[-1].get("inner"):
+            raise Refuse(f"call to {name}: body does not end in a return of a value")
+        sub = self.sub_tr()
+        sub.this_val, sub.this_rec = cur, Tr.forest.rec_owner.get(fn.get("id"))
+        for p, v in zip(ps, vals):
+            sub.env[p["id"]] = v
+        Tr.in_progress.add(fn.get("id"))
+        try:
+            if sub.stmts(body[:-1]) is not None:
+                raise Refuse(f"call to {name}: return before the end of the body")
+            term = sub.expr(body[-1]["inner"][0])
+        finally:
+            Tr.in_progress.discard(fn.get("id"))
+        self.n = sub.n
+        if slot is None:
+            self.this_val = sub.this_val
+        else:
+            self.env[slot] = sub.this_val
+        return term
 
     def take_apart(self, t, rec, name):
         if rec is None:
@@ -807,7 +945,9 @@ class Tr:
             while callee.get("kind") in ("ImplicitCastExpr", "ParenExpr"):
                 callee = callee["inner"][0]
             ref = callee.get("referencedDecl", {})
-            if ref.get("name") != "operator=" or ref.get("id") in Tr.forest.def_by_decl and not Tr.forest.def_by_decl[ref["id"]].get("isImplicit") \
+            if ref.get("name") != "operator=":
+                return False
+            if ref.get("id") in Tr.forest.def_by_decl and not Tr.forest.def_by_decl[ref["id"]].get("isImplicit") \
                     and Tr.forest.def_by_decl[ref["id"]].get("explicitlyDefaulted") != "default":
                 raise Refuse("assignment through a user-written operator=")
             lhs, rhs = s["inner"][1], s["inner"][2]
@@ -815,6 +955,17 @@ class Tr:
             lhs, rhs = s["inner"]
         else:
             return False
+        if not self.may_mutate:
+            raise Refuse("assignment inside a branch")
+        while lhs.get("kind") == "ParenExpr":
+            lhs = lhs["inner"][0]
+        if lhs.get("kind") == "UnaryOperator" and lhs.get("opcode") == "*" and lhs["inner"][0].get("kind") == "CXXThisExpr" \
+                and self.this_val is not None:
+            v = self.expr(rhs)                  # *this = e (defaulted copy / move assignment)
+            if not isinstance(v, SV) or len(sv_flat(v)) != len(sv_flat(self.this_val)):
+                raise Refuse("assignment to *this: shape")
+            self.this_val = v
+            return True
         if not (lhs.get("kind") == "MemberExpr" and lhs["inner"][0].get("kind") == "CXXThisExpr" and self.this_val is not None):
             raise Refuse("assignment to something that is not a member of *this")
         names = [f for f, _ in struct_fields(self.this_rec)]
@@ -871,6 +1022,7 @@ class Tr:
         sub = Tr(self.records, self.calls, self.members)
         sub.env = dict(self.env)
         sub.this_val, sub.this_rec = self.this_val, self.this_rec
+        sub.this_carried = self.this_carried
         sub.n = self.n
         term = sub.expr(n)
         self.n = sub.n
@@ -971,7 +1123,7 @@ class Tr:
                         self.env[d["id"]] = ("array", [str(e[0]) for e in elems])
                         continue
                     term = self.expr(init)
-                    if isinstance(term, SV):
+                    if isinstance(term, (SV, tuple)):
                         self.env[d["id"]] = term      # a record value: carried field by field, no binding of its own
                         continue
                     # narrowing to the declared type is already an IntegralCast node in the AST
@@ -980,6 +1132,9 @@ class Tr:
                     self.env[d["id"]] = nm
             elif k == "CompoundAssignOperator":
                 lhs, rhs = s["inner"]
+                if lhs["kind"] != "DeclRefExpr" and Tr.structs and self.may_mutate and self.member_slot(lhs) is not None:
+                    self.expr(s)
+                    continue
                 if lhs["kind"] != "DeclRefExpr":
                     raise Refuse("compound assignment to a non-variable")
                 op = s["opcode"][:-1]
@@ -1006,6 +1161,7 @@ class Tr:
                     sub = Tr(self.records, self.calls, self.members)
                     sub.env = dict(self.env); sub.n = self.n + 100
                     sub.this_val, sub.this_rec = self.this_val, self.this_rec
+                    sub.this_carried = self.this_carried
                     r = sub.stmts(live)
                     if r is None:
                         raise Refuse("function body without return")
@@ -1013,12 +1169,14 @@ class Tr:
                 then_t = Tr(self.records, self.calls, self.members)
                 then_t.env = dict(self.env); then_t.n = self.n + 100
                 then_t.this_val, then_t.this_rec = self.this_val, self.this_rec
+                then_t.this_carried = self.this_carried
                 a = then_t.stmts(then_nodes)
                 if a is None:
                     raise Refuse("if-branch without return")
                 rest_t = Tr(self.records, self.calls, self.members)
                 rest_t.env = dict(self.env); rest_t.n = self.n + 200
                 rest_t.this_val, rest_t.this_rec = self.this_val, self.this_rec
+                rest_t.this_carried = self.this_carried
                 b = rest_t.stmts(else_nodes)
                 if b is None:
                     raise Refuse("fall-through after if")
@@ -1028,10 +1186,15 @@ class Tr:
             elif Tr.structs and self.this_val is not None and k in ("ExprWithCleanups", "CXXOperatorCallExpr", "BinaryOperator") \
                     and self.assign_member(s):
                 continue
+            elif Tr.structs and self.may_mutate and k in ("ExprWithCleanups", "CXXOperatorCallExpr", "CXXMemberCallExpr", "UnaryOperator",
+                                                          "ParenExpr"):
+                self.expr(s)                    # an expression statement: evaluated for its effect on *this / a local object
+                continue
             elif k == "CompoundStmt":
                 sub = Tr(self.records, self.calls, self.members)
                 sub.env = dict(self.env); sub.n = self.n + 300
                 sub.this_val, sub.this_rec = self.this_val, self.this_rec
+                sub.this_carried = self.this_carried
                 r = sub.stmts(s.get("inner", []) + nodes[idx + 1:])
                 if r is None:
                     raise Refuse("function body without return")
@@ -1144,10 +1307,11 @@ def translate_fn(fn, k, cfg):
     ptypes = {}
     own = Tr.forest.rec_owner.get(fn.get("id")) if Tr.structs and Tr.forest is not None else None
     is_ctor = fn.get("kind") == "CXXConstructorDecl"
+    mutating = False
+    tr.may_mutate = bool(Tr.structs)
     if own is not None and own in Tr.structs and not is_ctor and fn.get("storageClass") != "static":
         # a non-static member function of a configured struct: the fields of *this come first
-        if not re.search(r"\) const( noexcept)?( ->.*)?$", fn.get("type", {}).get("qualType", "")):
-            raise Refuse("non-const member function as a kernel")
+        mutating = not is_const_method(fn)
         tr.this_val = sv_names(own, "" if len(struct_fields(own)) > 1 else struct_fields(own)[0][0].lstrip("_"))
         tr.this_rec = own
         params += sv_flat(tr.this_val)
@@ -1159,6 +1323,8 @@ def translate_fn(fn, k, cfg):
             params += sv_flat(v)
         elif p["kind"] == "ParmVarDecl":
             pname = k.get("param_names", {}).get(p.get("name"), p.get("name"))
+            if pname is None and Tr.structs:
+                pname = "unnamed%d" % len(params)       # `operator++(int)`
             tr.env[p["id"]] = pname
             params.append(pname)
             try:
@@ -1179,6 +1345,16 @@ def translate_fn(fn, k, cfg):
         sig = " ".join(f"({p} : {ptypes.get(p, 'Z')})" for p in params)
         return f"Definition {k['gallina_name']} {sig} :=\n  {render(tr.binds, f'Some {v}')}.\n"
     body = [x for x in fn["inner"] if x["kind"] == "CompoundStmt"][0]
+    if mutating:
+        # a non-const member function as a kernel: (returned value, value left in *this); straight-line bodies only
+        bs = body.get("inner", [])
+        if not bs or bs[-1].get("kind") != "ReturnStmt" or not bs[-1].get("inner"):
+            raise Refuse("non-const member function: body does not end in a return of a value")
+        if tr.stmts(bs[:-1]) is not None:
+            raise Refuse("non-const member function: return before the end of the body")
+        v = tr.expr(bs[-1]["inner"][0])
+        sig = " ".join(f"({p} : {ptypes.get(p, 'Z')})" for p in params)
+        return f"Definition {k['gallina_name']} {sig} :=\n  {render(tr.binds, f'Some ({v}, {tr.this_val})')}.\n"
     term = tr.stmts(body.get("inner", []))
     if term is None:
         raise Refuse("function body without return")
